@@ -93,6 +93,44 @@ def build(kind, sel):
         r = ExeFSReader(base)
         hs = [r.open('icon'), r.open('.code'), r.open('banner')]
         return dict(base=base, handles=[hs[i] for i in sel], writable=False, keep=[r] + hs)
+    if kind in ('exefs_code', 'exefs_lzss'):
+        # '.code-decompressed': an alias of the stored .code (not compressed) or a memory-backed entry (compressed)
+        from pyctr.type.exefs import ExeFSReader
+        from ..builders import exefs as XB, lzss as LZ
+        plain = bytes((i * 11) & 0xFF for i in range(0x300)) + bytes(8)
+        code = plain
+        if kind == 'exefs_lzss':
+            plain = b'abcabcabd' * 60
+            code = LZ.compress(plain, None, greedy=True)[0]
+        img = XB.build_exefs([('icon', b'\x01' * 0x36C0), ('.code', code), ('banner', b'\x02' * 0x80)])[0]
+        base = TT.TBase(io.BytesIO(img))
+        r = ExeFSReader(base, _load_icon=False)
+        r.decompress_code()
+        hs = [r.open('.code-decompressed'), r.open('banner'), r.open('.code'), r.open('.code-decompressed')]
+        return dict(base=base, handles=[hs[i] for i in sel], writable=False, keep=[r] + hs)
+    if kind == 'ncch_plain':
+        # unencrypted NCCH: section handles and the files of the nested readers are windows stacked on windows
+        from pyctr.type.ncch import NCCHReader, NCCHSection
+        spec = dict(CC._ncch_spec(False), mode='nocrypto')
+        from .. import ncchcommon as nc
+        image = nc.build(spec)[0]
+        base = TT.TBase(io.BytesIO(image))
+        r = NCCHReader(base)
+        files = list(r.romfs.walk.files('/'))
+        hs = [r.romfs.openbin(files[0]), r.romfs.openbin(files[-1]), r.open_raw_section(NCCHSection.RomFS), r.exefs.open('icon'), r.exefs.open('.code'),
+              r.open_raw_section(NCCHSection.FullDecrypted)]
+        return dict(base=base, handles=[hs[i] for i in sel], writable=False, keep=[r] + hs)
+    if kind == 'cci':
+        # partitions are windows on the image; everything opened from a partition's NCCH is a window on that window
+        from pyctr.type.cci import CCIReader, CCISection
+        from pyctr.type.ncch import NCCHSection
+        base = TT.TBase(io.BytesIO(im['cci']))
+        r = CCIReader(base)
+        c0, c1 = r.contents[CCISection.Application], r.contents[CCISection.Manual]
+        info = next(iter(c0.romfs.walk.files('/')))
+        hs = [c0.open_raw_section(NCCHSection.ExtendedHeader), c0.exefs.open('icon'), c0.romfs.openbin(info), c0.open_raw_section(NCCHSection.RomFS),
+              c1.exefs.open('icon'), r.open_raw_section(CCISection.Application), c0.open_raw_section(NCCHSection.FullDecrypted)]
+        return dict(base=base, handles=[hs[i] for i in sel], writable=False, keep=[r] + hs)
     if kind in ('ncch', 'ncch_special'):
         from pyctr.type.ncch import NCCHReader, NCCHSection
         base = TT.TBase(io.BytesIO(im[kind]))
@@ -141,6 +179,10 @@ SCENARIOS = [
     ('wrappers', [(0, 1), (0, 2), (1, 3), (0, 1, 2)]),
     ('romfs', [(0, 1), (1, 2)]),
     ('exefs', [(0, 1), (1, 2)]),
+    ('exefs_code', [(0, 1), (0, 2), (0, 3)]),
+    ('exefs_lzss', [(0, 1), (0, 3)]),
+    ('ncch_plain', [(0, 1), (0, 2), (3, 4), (0, 5), (2, 3)]),
+    ('cci', [(0, 1), (1, 2), (2, 3), (0, 4), (1, 5), (2, 6), (0, 1, 2)]),
     ('ncch', [(0, 1), (2, 3), (2, 4), (0, 5), (2, 5), (4, 5), (5, 7), (1, 4)]),
     ('ncch_special', [(2, 3), (3, 5), (3, 6), (6, 5), (0, 6)]),
     ('cia', [(0, 1), (0, 2), (2, 3), (3, 4), (1, 3)]),
